@@ -128,9 +128,10 @@ def phase_definition(text, name):
     return out
 
 
-def strip_critical_constants(text):
-    """Copy of a database text whose PHASES carry no -T_c / -P_c / -Omega (=> every gas is ideal) and without
-    GAS_BINARY_PARAMETERS data lines."""
+def strip_critical_constants(text, keep_binary=False):
+    """Copy of a database text whose PHASES carry no -T_c / -P_c / -Omega (=> every gas is ideal) and (unless
+    keep_binary) without GAS_BINARY_PARAMETERS data lines.  Without such lines the engine falls back to the hard-coded
+    k_ij that the comment block of phreeqc.dat documents (H2O with CO2, H2S: 0.19; with CH4, N2: 0.49)."""
     out = []
     block = None
     for raw in text.splitlines():
@@ -138,7 +139,7 @@ def strip_critical_constants(text):
         first = body.split()[0] if body.split() else ""
         if first and first == first.upper() and first in BLOCKS:
             block = first
-        if block == "GAS_BINARY_PARAMETERS" and first != "GAS_BINARY_PARAMETERS":
+        if block == "GAS_BINARY_PARAMETERS" and first != "GAS_BINARY_PARAMETERS" and not keep_binary:
             continue
         if block == "PHASES" and re.search(r"(?i)(^|[\s;])-?(t_c|p_c|omega)\b", body):
             parts = [p for p in body.split(";") if not re.match(r"(?i)^\s*-?(t_c|p_c|omega)\b", p)]
